@@ -127,6 +127,10 @@ class Program:
         from .inline import inline_new_helpers, load_known
         self.inlined = inline_new_helpers({name: (m.path, m.tree) for name, m in self.modules.items()}, load_known())
         self._canonicalise_tests()
+        self.renamed_back = []
+        if not os.environ.get("VK_NO_RENAMEBACK"):
+            from . import renameback
+            self.renamed_back = renameback.apply({name: (m.path, m.tree) for name, m in self.modules.items()}, renameback.load_recorded())
         self._index()
         self._canonicalise_calls()
 
